@@ -143,6 +143,90 @@ def eval_one(t, name, dialect, expect, use_ymd=False):
     return None
 
 
+# ------------------------------------------------------------------ numeric d-m-y / m-d-y strings followed by a time of day
+TOD_LEVELS = ('HM', 'HMS', 'HMSf')        # ' HH:MM', ' HH:MM:SS', ' HH:MM:SS.ffffff'
+
+
+def spelled(t, level):
+    """the instant a string with that time-of-day suffix spells: t truncated to the minute / second / microsecond"""
+    return t.replace(second=0, microsecond=0) if level == 'HM' else t.replace(microsecond=0) if level == 'HMS' else t
+
+
+def numeric_tod_string(t, order, sep, pad, level):
+    suffix = ' %02d:%02d' % (t.hour, t.minute)
+    if level != 'HM':
+        suffix += ':%02d' % t.second
+    if level == 'HMSf':
+        suffix += '.%06d' % t.microsecond
+    return numeric_string(t, order, sep, pad) + suffix
+
+
+def eval_numeric_tod(t, order, sep, pad, level, dialect, expect):
+    """the d-m-y (uk) / m-d-y (us) numeric string of day t followed by t's time of day (to the minute / second / microsecond) must
+    give the instant it spells under its own dialect, and for day > 12 be rejected with ValueError under the other one.
+    returns None when the clause holds, else (key, what)"""
+    from pyg_base import dt
+    target = spelled(t, level)
+    text = numeric_tod_string(target, order, sep, pad, level)
+    fam = family('%s|%s|%s' % (order, sep, pad), t)
+    try:
+        r = dt(text, dialect=dialect)
+    except Exception as e:              # noqa
+        if expect == 'ValueError':
+            if isinstance(e, ValueError):
+                return None
+            return ('C04:time-of-day:wrong-dialect:other-exception', 'dt(%r, dialect=%r) raised %r, expected ValueError' % (text, dialect, e))
+        return ('C04:time-of-day:%s:raises' % fam, 'dt(%r, dialect=%r) raised %r, expected %s' % (text, dialect, e, target))
+    if expect == 'ValueError':
+        return ('C04:time-of-day:wrong-dialect:accepted', 'dt(%r, dialect=%r) = %s: a day>12 string of the other dialect (with a time of day) was not '
+                'rejected' % (text, dialect, r))
+    try:
+        ok = isinstance(r, datetime.datetime) and r == target
+    except Exception:                   # noqa
+        ok = False
+    if ok:
+        return None
+    what = 'dt(%r, dialect=%r) = %r, expected %s' % (text, dialect, r, target)
+    if level == 'HMSf' and target.microsecond and isinstance(r, datetime.datetime) and r == target.replace(microsecond=0):
+        # right day and second, the fraction of a second written in the string is lost (its own input class: day <= 12 under uk)
+        return ('C04:time-of-day:%s:microseconds-dropped' % fam.split(':')[0], what)
+    return ('C04:time-of-day:%s:value' % fam, what)
+
+
+def numeric_tod_cases(t):
+    """(order, sep, pad, level, dialect, expect) for an instant t"""
+    out = []
+    for sep in SEPS:
+        for pad in 'pu':
+            if pad == 'u' and t.day >= 10 and t.month >= 10:
+                continue
+            for level in TOD_LEVELS:
+                out.append(('dmy', sep, pad, level, 'uk', 'value'))
+                out.append(('mdy', sep, pad, level, 'us', 'value'))
+                if t.day > 12:
+                    out.append(('dmy', sep, pad, level, 'us', 'ValueError'))
+                    out.append(('mdy', sep, pad, level, 'uk', 'ValueError'))
+    return out
+
+
+def numeric_tod_instants(rng, quick):
+    """every day of a leap year (all 366 (day, month) pairs), the range ends, seeded days of the whole range; each with a
+    time of day running through the boundary values of every field (the 16 zero / non-zero patterns) or seeded"""
+    days = list(range(D(2000, 1, 1).toordinal(), D(2001, 1, 1).toordinal())) + [O0, O1 - 1]
+    days += [rng.randrange(O0, O1) for _ in range(450 if quick else 20000)]
+    bounds = [datetime.timedelta(hours=h, minutes=m, seconds=sec, microseconds=us)
+              for h in (0, 1, 12, 23) for m in (0, 1, 59) for sec in (0, 1, 59) for us in (0, 1, 500000, 999999, 1000)]
+    rng.shuffle(bounds)
+    out = []
+    for k, o in enumerate(days):
+        if k % 3 == 2:
+            tod = datetime.timedelta(hours=rng.randrange(24), minutes=rng.randrange(60), seconds=rng.randrange(60), microseconds=rng.randrange(10 ** 6))
+        else:
+            tod = bounds[k % len(bounds)]
+        out.append(D.fromordinal(o) + tod)
+    return out
+
+
 def call_of(t, name, dialect, expect, use_ymd=False):
     return dict(kind='spell', o=t.toordinal(), us=int((t - D(t.year, t.month, t.day)) / datetime.timedelta(microseconds=1)),
                 name=name, dialect=dialect, expect=expect, ymd=bool(use_ymd), iso=t.isoformat())
@@ -238,7 +322,9 @@ def run(tier, seed):
                        'day>12 the same strings under the other dialect (must raise ValueError); %d seeded instants with a time of day to the '
                        'microsecond through the lossless formats and ymd(); all 16 zero/non-zero patterns of (hour, minute, second, microsecond) x %d days '
                        '(range ends, leap day, epoch, seeded) x lowest/highest/seeded non-zero field values through the lossless formats (datetime, ISO, '
-                       'np.datetime64[us/ns], pd.Timestamp, dt2str round trip), the to-the-second spellings ((y,m,d,h,m,s), np.datetime64[s]) and ymd(); overflow dt(y,m,d) for months [-36,48] x days [-400,400]: %s. '
+                       'np.datetime64[us/ns], pd.Timestamp, dt2str round trip), the to-the-second spellings ((y,m,d,h,m,s), np.datetime64[s]) and ymd(); the d-m-y / m-d-y numeric strings '
+                       '(4 separators, padded / unpadded) followed by a time of day HH:MM, HH:MM:SS, HH:MM:SS.ffffff on every day of 2000 + range ends + '
+                       'seeded days, times at the field boundaries or seeded, own dialect (value) and for day>12 the other dialect (ValueError); overflow dt(y,m,d) for months [-36,48] x days [-400,400]: %s. '
                        'Every case is a distinct (day, spelling, dialect) triple or (y,m,d) triple.'
                        % ('every 37th day + all month ends + all 29 Feb + all days of 1900, 2000, 2024, 2100, 2299 (%d days)' % len(days) if quick
                           else 'all 146097 days', 400 if quick else 20000, 12 if quick else 206,
@@ -298,6 +384,18 @@ def run(tier, seed):
                     if bad is not None:
                         key = bad[0] if use_ymd else bad[0].replace('C04:', 'C04:time-of-day:', 1)
                         c.check(False, key, '[h,m,s,us zero/non-zero pattern %s] %s' % (pat, bad[1]), call_of(t, name, dialect, 'value', use_ymd))
+    # ---- numeric d-m-y / m-d-y strings (every separator, padded / unpadded) followed by a time of day ' HH:MM' / ' HH:MM:SS' /
+    #      ' HH:MM:SS.ffffff': the dialect rule (value under the own dialect, ValueError for day > 12 under the other) holds with the suffix
+    for t in numeric_tod_instants(rng, quick):
+        for order, sep, pad, level, dialect, expect in numeric_tod_cases(t):
+            n_eval += 1
+            tod_seen.add((spelled(t, level), order, sep, pad, level, dialect))
+            bad = eval_numeric_tod(t, order, sep, pad, level, dialect, expect)
+            if bad is not None:
+                c.check(False, bad[0], bad[1], dict(kind='numtod', o=t.toordinal(), us=int((t - D(t.year, t.month, t.day)) / datetime.timedelta(microseconds=1)),
+                                                    order=order, sep=sep, pad=pad, level=level, dialect=dialect, expect=expect, iso=t.isoformat()))
+    c.samples.append(dict(numeric_with_time_of_day=[numeric_tod_string(D(2001, 4, 3, 10, 20, 30, 5), 'dmy', '-', 'p', 'HMS'),
+                                                    numeric_tod_string(D(2001, 4, 23, 10, 20, 30, 5), 'mdy', '.', 'u', 'HMSf')]))
     c.samples.append(dict(time_of_day_patterns='16 zero/non-zero patterns of (h,m,s,us), e.g. 0001 -> %s' % (D(2000, 1, 10) + datetime.timedelta(microseconds=50)).isoformat()))
     # ---- month / day overflow
     months, dys = list(range(-36, 49)), list(range(-400, 401))
@@ -334,6 +432,11 @@ def replay(call):
         if bad is None:
             return dict(fails=False, detail='clause holds on the real code for %s spelling %s dialect %s' % (t, call['name'], call['dialect']))
         return dict(fails=True, detail=bad[1])
+    if kind == 'numtod':
+        t = D.fromordinal(int(call['o'])) + datetime.timedelta(microseconds=int(call.get('us') or 0))
+        bad = eval_numeric_tod(t, call['order'], call['sep'], call['pad'], call['level'], call['dialect'], call.get('expect', 'value'))
+        text = numeric_tod_string(spelled(t, call['level']), call['order'], call['sep'], call['pad'], call['level'])
+        return dict(fails=bad is not None, detail=bad[1] if bad else 'clause holds on the real code for dt(%r, dialect=%r)' % (text, call['dialect']))
     if kind == 'overflow':
         c = Collector('C04', 'replay')
         check_overflow(c, int(call['y']), int(call['m']), int(call['d']))
